@@ -82,7 +82,7 @@ def xdist_running(config):
         hasattr(config.option, "numprocesses")
         and config.option.numprocesses is not None
         and config.option.numprocesses != 0
-    )
+    ) or hasattr(config, "workerinput")  # inside of a xdist worker process
 
 
 def is_ci_run():
